@@ -201,6 +201,10 @@ def _run(ctx):
         ("pebble-viasm", "pebble", ["-viasm", "-random", str(max(4, n["sm"] // 3)), "-len", "30", "-seed", str(ctx.seed + 61)], True),
         # regression stage for 0f1a644: pebble opened with the configuration option disable_wal (strict)
         ("pebble-nowal", "pebble", ["-nowal", "-random", "8" if quick else "80", "-len", "24", "-seed", str(ctx.seed + 70)], True),
+        # a consumer polls IsLocalBackupOK during backups of a large store and copies a checkpoint the moment it is
+        # reported available: the copy must be the complete image (a checkpoint is never visible half-written)
+        ("mem-availrace", "mem", ["-availrace", "1" if quick else "4", "-len", "25" if quick else "40", "-seed", str(ctx.seed + 75)], True),
+        ("pebble-availrace", "pebble", ["-availrace", "1" if quick else "4", "-len", "25" if quick else "40", "-seed", str(ctx.seed + 76)], True),
         # large sst files with fixed-length values, restore - rewrite - restore (files of the same name,
         # size and tail but other content in the data directory and in a checkpoint)
         ("pebble-bigsst", "pebble", ["-bigsst", "1" if quick else "6", "-seed", seed], True),
